@@ -186,7 +186,9 @@ RULE = ('a case is (KeepWhitespace, document bytes). Documents: every complete b
         'XmlMachine (all well-formed token streams up to the length bound over its vocabulary of tags, text kinds, '
         'CDATA kinds, comment, PI, DOCTYPE; both KeepWhitespace values), XmlAttr (all attribute values up to the '
         'length bound over literal characters and references, both quote kinds) and XmlText (all texts up to the length '
-        'bound over literal characters, blanks and decimal/hex/named references, in <a>TEXT</a>, both KeepWhitespace values); TLC -simulate walks of XmlMachine '
+        'bound over literal characters, blanks and decimal/hex/named references, in <a>TEXT</a>, both KeepWhitespace values); '
+        'the window family of XmlMachine (documents that start <a>x, <a><![CDATA[x]]> or <a>x<a> followed by every '
+        'continuation up to 7/6/8 tokens over 10 token kinds: look-ahead with history in the token buffer); TLC -simulate walks of XmlMachine '
         'to 14 tokens; the same token streams re-rendered with other names, attributes, references, PIs, comments, '
         'DOCTYPE/internal subsets; inputs of xml_test.go, tests/xml/corpus, _benchmarks/*.xml. Documents the '
         'independent reader does not accept as well-formed are outside the quantification and are not judged. '
@@ -203,7 +205,7 @@ def generate(ctx):
     quick = ctx.quick()
     cases = []
     seen = set()
-    stats = dict(mc_docs=0, mc_known_skipped=0, attr_docs=0, attr_known_skipped=0, text_docs=0, text_known_skipped=0, sim_docs=0, sim_known_skipped=0,
+    stats = dict(mc_docs=0, mc_known_skipped=0, attr_docs=0, attr_known_skipped=0, text_docs=0, text_known_skipped=0, window_docs=0, window_known_skipped=0, sim_docs=0, sim_known_skipped=0,
                  decorated=0, decorated_known_skipped=0, repo_tests=0, corpus=0, pinned=0)
 
     def add(keep, data, src, pred=None):
@@ -212,7 +214,7 @@ def generate(ctx):
             return False
         seen.add(k)
         # entry point: generated documents rotate over Minifier.Minify / xml.Minify / registry M.Bytes; fixed inputs use the first
-        path = len(cases) % 3 if src in ('mc', 'attr', 'text', 'sim', 'decorated') else 0
+        path = len(cases) % 3 if src in ('mc', 'attr', 'text', 'window', 'sim', 'decorated') else 0
         cases.append(dict(id=len(cases), keep=bool(keep), path=path, src=src, pred=None if pred is None else bytes(pred), **{'in': bytes(data)}))
         return True
 
@@ -240,7 +242,7 @@ def generate(ctx):
                 stats[skipped] += 1
                 continue
             if not e['holds']:
-                if src == 'mc':
+                if src in ('mc', 'window'):
                     raise vlib.Infra('design counterexample outside the known constructs: %r' % bytes(e['in']))
                 # beyond the bound, explained by no known construct: the real code decides (it is run like every other document)
                 ctx.coverage['design_counterexamples_beyond_bound'] = ctx.coverage.get('design_counterexamples_beyond_bound', 0) + 1
@@ -278,6 +280,12 @@ def generate(ctx):
     def job_text():
         return mc('XmlText', 'XmlText_quick.cfg' if quick else 'XmlText_thorough.cfg', 3 if quick else 8, '2g' if quick else '4g')
 
+    def job_window(n):
+        return mc('XmlMachine', 'XmlMachine_window%d.cfg' % n, 3 if quick else 6, '2g')
+
+    def job_buffer():
+        return mc('XmlBuffer', 'XmlBuffer_quick.cfg' if quick else 'XmlBuffer_thorough.cfg', 3 if quick else 8, '2g' if quick else '4g')
+
     def job_sim(w):
         rs = vlib.tlc(ctx, 'XmlMachine', 'XmlMachine_sim.cfg', workers=1, simulate='num=%d' % (nsim // nproc), depth=40,
                       seed=ctx.seed * 100 + w, timeout=1500)
@@ -287,24 +295,28 @@ def generate(ctx):
 
     t0 = time.time()
     vlib._speccopy(ctx)        # the scratch copy of spec/ must exist before TLC jobs start in parallel
-    with ThreadPoolExecutor(max_workers=3 + nproc) as ex:
+    with ThreadPoolExecutor(max_workers=6 + nproc) as ex:
         fm = ex.submit(job_machine)
         fa = ex.submit(job_attr)
         ft = ex.submit(job_text)
+        fw = [ex.submit(job_window, n) for n in (1, 2, 3)]
+        fb = ex.submit(job_buffer)
         fs = [ex.submit(job_sim, w) for w in range(nproc)]
         r = fm.result()
         ra = fa.result()
         rt = ft.result()
+        rw = [f.result() for f in fw]
+        rb = fb.result()
         outs = [f.result() for f in fs]
     vlib.log('C06: TLC on XmlMachine, XmlAttr, XmlText, simulation %.0fs' % (time.time() - t0))
     # per-action coverage of the design models: an action that never fired would make the model vacuous there
     actions = {}
-    for out in (r['out'], ra['out'], rt['out']):
-        for m in re.finditer(r'^<(\w+) line \d+, col \d+ to line \d+, col \d+ of module (XmlMachine|XmlAttr|XmlText)>: (\d+):(\d+)', out, re.M):
+    for out in (r['out'], ra['out'], rt['out'], rb['out']):
+        for m in re.finditer(r'^<(\w+) line \d+, col \d+ to line \d+, col \d+ of module (XmlMachine|XmlAttr|XmlText|XmlBuffer)>: (\d+):(\d+)', out, re.M):
             actions['%s.%s' % (m.group(2), m.group(1))] = int(m.group(4))
     dead = [a for a, n in actions.items() if n == 0]
     expected = ['XmlMachine.' + a for a in ('Gen', 'Start', 'StepText', 'StepCDATAEmpty', 'StepCDATA', 'StepComment', 'StepVerbatim',
-                                           'StepStart', 'StepVoid', 'StepEnd', 'StepEOF')] + ['XmlAttr.Gen', 'XmlAttr.Rewrite', 'XmlText.Gen', 'XmlText.Rewrite']
+                                           'StepStart', 'StepVoid', 'StepEnd', 'StepEOF')] + ['XmlAttr.Gen', 'XmlAttr.Rewrite', 'XmlText.Gen', 'XmlText.Rewrite', 'XmlBuffer.Shift', 'XmlBuffer.Peek']
     if dead or any(a not in actions for a in expected):
         raise vlib.Infra('design model action without coverage: %r / %r' % (dead, [a for a in expected if a not in actions]))
     ctx.coverage['design_action_coverage'] = actions
@@ -340,6 +352,16 @@ def generate(ctx):
         if add(e['keep'], e['in'], 'text', e['out']):
             stats['text_docs'] += 1
     rt['out'] = ''
+    # call histories of the TokenBuffer design model, replayed on the real xml.TokenBuffer (DRIFT information only)
+    ctx.coverage['design_states_XmlBuffer'] = rb['distinct']
+    ctx.buffer_histories = [json.loads(l) for l in rb['out'].splitlines() if l.startswith('"{') and l.endswith('}"')]
+    rb['out'] = ''
+    # window family: open root + non-blank character data, then every continuation over a small vocabulary
+    ctx.coverage['design_states_XmlMachine_windows'] = sum(x['distinct'] for x in rw)
+    for x in rw:
+        if take(x['out'], 'window', 'window_known_skipped') == 0:
+            raise vlib.Infra('window configuration emitted no behaviours')
+        x['out'] = ''
     for o in outs:
         take(o, 'sim', 'sim_known_skipped')
     del outs
@@ -441,11 +463,39 @@ def describe(c, e, clauses):
 CHUNK = 120000
 
 
+def replay_buffer(ctx, exe):
+    """XmlBuffer's call histories on the real xml.TokenBuffer, judged by C06BufTrace (plain queue).  A deviation is
+    DRIFT information in the evidence, never a verdict: the property is about documents (see XmlBuffer.tla)."""
+    hs = ctx.buffer_histories
+    if not hs:
+        raise vlib.Infra('XmlBuffer emitted no histories')
+    cin = ctx.path('run', 'buffer-cases.ndjson')
+    tout = ctx.path('run', 'buffer-trace.ndjson')
+    with open(cin, 'w') as f:
+        for h in hs:
+            f.write(h + '\n')
+    vlib.run([exe, '-buffer', cin, tout], timeout=1200)
+    lines = open(tout).read().splitlines()
+    if len(lines) != len(hs):
+        raise vlib.Infra('buffer replay wrote %d lines for %d histories' % (len(lines), len(hs)))
+    acc, rej = vlib.tlc_trace(ctx, 'C06BufTrace', 'C06BufTrace.cfg', lines, min_per_shard=10000, timeout=1200)
+    bad = sorted(set(i for i, _ in rej))
+    ctx.coverage['token_buffer_histories_replayed'] = len(lines)
+    ctx.coverage['token_buffer_drift'] = len(bad)
+    ctx.coverage['token_buffer_drift_samples'] = [json.loads(lines[i]) for i in bad[:5]]
+    if bad:
+        vlib.log('C06: DRIFT (information, not a verdict): the real xml.TokenBuffer differs from a queue on %d of %d call '
+                 'histories, e.g. %s' % (len(bad), len(lines), lines[bad[0]]))
+    os.remove(cin)
+    os.remove(tout)
+
+
 def run(ctx):
     t0 = time.time()
     exe = vlib.build_harness(ctx, 'c06')
     vlib.log('C06: build %.0fs' % (time.time() - t0))
     cases, stats = generate(ctx)
+    replay_buffer(ctx, exe)
     vlib.log('C06: %d cases generated' % len(cases))
     accepted = judged = skipped = drift = compared = 0
     drift_samples, samples = [], []
@@ -456,7 +506,7 @@ def run(ctx):
         part = cases[lo:lo + CHUNK]
         metas, lines = run_cases(ctx, exe, part, 'main%d' % lo)
         for c, e in zip(part, metas):
-            if c['src'] in ('mc', 'attr', 'text', 'sim', 'decorated') and not e['inwf']:
+            if c['src'] in ('mc', 'attr', 'text', 'window', 'sim', 'decorated') and not e['inwf']:
                 raise vlib.Infra('generated document rejected by the reader (%s): %r' % (e['inwhy'], c['in']))
             if not e['inwf']:
                 skipped += 1
